@@ -39,13 +39,15 @@ type TAJob struct {
 	Seq         int    // event number of the launch
 	Incarnation int    // mrp incarnation that launched it
 	Started     bool
-	Done        bool
-	Dead        bool // killed by a crash
-	Args        json.RawMessage
-	Outs        json.RawMessage // what the fake stage wrote (_outs or _stage_defs)
-	Outcome     string
-	StageName   string
-	traceRef    string
+	// the job's outputs are on disk and journaled, completion is not yet recorded
+	OutputsWritten bool
+	Done           bool
+	Dead           bool // killed by a crash
+	Args           json.RawMessage
+	Outs           json.RawMessage // what the fake stage wrote (_outs or _stage_defs)
+	Outcome        string
+	StageName      string
+	traceRef       string
 }
 
 // TAEvent is one entry of the history.
@@ -68,15 +70,19 @@ type Fault struct {
 }
 
 type TAOpts struct {
-	VdrMode          string
-	MroPaths         []string
-	SrcPath          string
-	Psid             string
-	CrashAt          map[int]bool // crash before the event with this sequence number
-	CrashSurvive     float64      // probability an in-flight started job survives a crash
-	Faults           []*Fault
-	InlineFinish     float64 // probability a job finishes synchronously inside execJob
-	StartSeparate    float64 // probability that start (log) is a separate event from finish
+	VdrMode       string
+	MroPaths      []string
+	SrcPath       string
+	Psid          string
+	CrashAt       map[int]bool // crash before the event with this sequence number
+	CrashSurvive  float64      // probability an in-flight started job survives a crash
+	Faults        []*Fault
+	InlineFinish  float64 // probability a job finishes synchronously inside execJob
+	StartSeparate float64 // probability that start (log) is a separate event from finish
+	// EarlyOutputs: probability that a started job first records its outputs (the adapter writes
+	// _stage_defs / _outs and their journal entries when the stage code returns) as an event of its
+	// own, well before the monitor records _complete.  0 = same as StartSeparate.
+	EarlyOutputs     float64
 	StepBias         float64 // probability of stepping when jobs are pending
 	MaxEvents        int
 	Adversarial      bool                                          // prefer finishing the most recently launched job first
@@ -344,6 +350,34 @@ func (r *TARun) startJob(job *TAJob) {
 	}
 }
 
+// writeOutputs: the stage code has returned and the adapter has written the job's outputs
+// (_stage_defs of a split, _outs otherwise) and journaled them; the monitor has not yet
+// recorded completion.  Jobs with an injected fault skip this phase.
+func (r *TARun) writeOutputs(job *TAJob) {
+	if job.OutputsWritten || job.Done {
+		return
+	}
+	for _, f := range r.Opts.Faults {
+		if f.JobKey == job.Key {
+			return
+		}
+	}
+	r.startJob(job)
+	outs, err := r.runStage(job, "")
+	if err != nil {
+		return
+	}
+	job.OutputsWritten = true
+	job.Outs = compactJSON(outs)
+	md := r.jobMeta(job)
+	if job.ShellName == "split" {
+		md.UpdateJournal(core.StageDefsFile)
+	} else {
+		md.UpdateJournal(core.OutsFile)
+	}
+	r.log("outputs", job.Key, "")
+}
+
 func (r *TARun) faultFor(job *TAJob) *Fault {
 	for _, f := range r.Opts.Faults {
 		if f.JobKey == job.Key && (f.Repeat || f.used == 0) {
@@ -385,7 +419,13 @@ func (r *TARun) finishJob(job *TAJob) {
 		}
 		job.Outcome = "fail:exit"
 	default:
-		outs, err := r.runStage(job, kind)
+		var outs []byte
+		var err error
+		if job.OutputsWritten && kind == "" {
+			outs = job.Outs
+		} else {
+			outs, err = r.runStage(job, kind)
+		}
 		if err != nil {
 			md.WriteRaw(core.Errors, "fake stage error: "+err.Error())
 			md.UpdateJournal(core.Errors)
@@ -841,8 +881,14 @@ func (r *TARun) Run() {
 			} else {
 				job = r.Pending[r.Rng.Intn(len(r.Pending))]
 			}
+			early := r.Opts.EarlyOutputs
+			if early == 0 {
+				early = r.Opts.StartSeparate
+			}
 			if !job.Started && r.Rng.Float64() < r.Opts.StartSeparate {
 				r.startJob(job)
+			} else if job.Started && !job.OutputsWritten && early > 0 && r.Rng.Float64() < early {
+				r.writeOutputs(job)
 			} else {
 				r.finishJob(job)
 			}
